@@ -9,6 +9,7 @@ import threading
 from uuid import uuid4
 from contextlib import contextmanager
 from functools import partial
+from itertools import count
 from inspect import getcallargs
 from contextvars import ContextVar
 
@@ -206,6 +207,9 @@ class Action(object):
         self._logger = _output._DEFAULT_LOGGER if (logger is None) else logger
         self._task_level = task_level
         self._last_child = None
+        # Positions of the messages and child actions of this action; next()
+        # on it cannot be interrupted half way.
+        self._child_numbers = count(1)
         self._identification = {
             TASK_UUID_FIELD: task_uuid,
             ACTION_TYPE_FIELD: action_type,
@@ -286,11 +290,14 @@ class Action(object):
 
         @return: The message's C{task_level}.
         """
-        if not self._last_child:
-            self._last_child = self._task_level.child()
-        else:
-            self._last_child = self._last_child.next_sibling()
-        return self._last_child
+        # (taken in one step, rather than by reading the previous position and
+        # storing its successor: code that logs into this action in the
+        # middle of such a sequence - a signal handler, a finalizer - would
+        # be given the same position as the message being logged)
+        level = self._task_level.as_list()
+        level.append(next(self._child_numbers))
+        self._last_child = level = TaskLevel(level=level)
+        return level
 
     def _start(self, fields):
         """
